@@ -207,7 +207,7 @@ theorem idWF_processHeader (r : Repo) (h : Hdr) (ok : Bool) (hw : LinkWF r.arena
     IdWF (processHeader r h ok).1.arena (processHeader r h ok).1.branches := by
   cases processHeader_shape r h ok hnc with
   | same ha hb _ => rw [ha, hb]; exact hi
-  | fork pb ph lst nb hp hn ha hb _ =>
+  | fork pb ph lst nb hp hne hn ha hb _ =>
     rw [ha, hb]
     obtain ⟨l2, w, _, _, rfl⟩ := newBranch_ok_shape r pb ph h nb hn
     exact idWF_fork r.arena r.branches hi pb ph h _ _ rfl (fun bi b k d hb hk => fresh_not_held r hi h.id hp.fresh bi b k d hb hk)
